@@ -367,6 +367,15 @@ func (t *Transformer) ReverseTranslate(v reflect.Value) (reflect.Value, error) {
 	// iterate through manglers in reverse order passing the value of the struct
 	// field paired with its reflect.StructField as a FieldValueTuple
 
+	// Sources may hand back a pointer to the translated struct (dials
+	// dereferences such values itself when stacking), so do the same here.
+	for v.Kind() == reflect.Ptr {
+		if v.IsNil() {
+			v = reflect.Zero(v.Type().Elem())
+			break
+		}
+		v = v.Elem()
+	}
 	layerMangledVal := unpackValueFields(v)
 	// we're iterating backwards through manglers
 	for manglerNum := len(t.manglers) - 1; manglerNum >= 0; manglerNum-- {
